@@ -10,6 +10,12 @@
    (post / add handler / replace handler / remove by key / remove by method) and a return value.
    Besides the literal transcription ([inner], [outer]) the file contains the short recursive
    specification ([dfs], [drain]) the transcription is proved to refine (Lemmas.v).
+   Round 2: programs may also call into the other anchored APIs from inside a handler (DelayManager.add /
+   reset / remove / run_now with callbacks that post, SwitchController.process_switch with untimed handlers
+   that post): such a call runs the callback INLINE (observation [Sub]) and never dispatches anything;
+   expiring delays are contexts ([TFire]); posted '_min_priority' + handler blocking_facility;
+   remove_handler_by_event, remove_all_handlers_for_event; queue events (post_queue): _process_queue_event
+   creates a task, _run_handlers_sequential runs in steps ([task_step]) between which the handlers may wait.
    Definitions only; proofs are in Lemmas.v. *)
 From Common Require Import Prelude.
 Open Scope Z_scope.
@@ -17,10 +23,12 @@ Open Scope Z_scope.
 (* ------------------------------------------------------------------------------------------ *)
 (* values and keyword dictionaries (canonical: sorted by key, keys distinct)                    *)
 
-Inductive val := VZ (z : Z) | VB (b : bool) | VNone | VMap (m : list (Z * Z)).
+(* VMP m = the dict {'_min_priority': m} (a handler result that ends up as ev_result) *)
+Inductive val := VZ (z : Z) | VB (b : bool) | VNone | VMap (m : list (Z * Z)) | VMP (m : list (Z * Z)).
 Definition kw := list (Z * val).
 
 Definition KEY_EV_RESULT : Z := 0.          (* the key 'ev_result'; user keys are 1.. *)
+Definition KEY_MINPRIO : Z := -1.           (* the key '_min_priority'; its value is VMap [(0, all); (facility, n) ...] *)
 
 Fixpoint kw_set (k : Z) (v : val) (m : kw) : kw :=
   match m with
@@ -46,8 +54,10 @@ Definition is_nil {A} (l : list A) : bool := match l with [] => true | _ => fals
 (* ------------------------------------------------------------------------------------------ *)
 (* events, handlers, scripts                                                                    *)
 
-Inductive ety := TNone | TBool | TRelay.          (* post / post_boolean / post_relay *)
-Inductive ret := RNone | RB (b : bool) | RZ (z : Z) | RMap (m : list (Z * Z)).
+Inductive ety := TNone | TBool | TRelay | TQueue.          (* post / post_boolean / post_relay / post_queue *)
+(* RWait: the handler calls queue.wait() on the QueuedEvent it was given (queue events) and returns None *)
+(* RMinPrio m: the handler returns {'_min_priority': m} (block_event_player, shot) *)
+Inductive ret := RNone | RB (b : bool) | RZ (z : Z) | RMap (m : list (Z * Z)) | RWait | RMinPrio (m : list (Z * Z)).
 
 (* condition "{k<n> == z}" of an event string; evaluated by MPF's BoolTemplate on the merged kwargs:
    missing name -> default False; Python ==, so True == 1 and False == 0 *)
@@ -69,15 +79,23 @@ Record handler := mkH {
   h_prio : Z;       (* priority argument + ".N" suffix + relative_priority *)
   h_kw : kw;        (* kwargs registered with the handler *)
   h_cond : cond;
+  h_bf : Z;         (* blocking_facility (0 = None) *)
   h_seq : Z         (* ghost: registration sequence number *)
 }.
 
 Inductive action :=
 | APost (e : Z) (ty : ety) (cb : option Z) (k : kw)
-| AAdd (key e pid prio suffix rel : Z) (hk : kw) (c : cond)
+| AAdd (key e pid prio suffix rel : Z) (hk : kw) (c : cond) (bf : Z)
 | ARemove (key : Z)
 | ARemoveMethod (pid : Z)                          (* remove_handler(method) *)
-| AReplace (key e pid prio : Z) (hk : kw).         (* replace_handler(event, method, priority, **kwargs) *)
+| AReplace (key e pid prio : Z) (hk : kw)          (* replace_handler(event, method, priority, **kwargs) *)
+| ARemoveByEvent (e pid : Z)                       (* remove_handler_by_event(event, method) *)
+| ARemoveAll (e : Z)                               (* remove_all_handlers_for_event(event) *)
+| ADelayAdd (name pid : Z)                         (* DelayManager.add / reset (ms > 0, name): callback = procedure pid *)
+| ADelayRemove (name : Z)                          (* DelayManager.remove *)
+| ARunNow (name : Z)                               (* DelayManager.run_now: the callback runs inline *)
+| ASwitch (pids : list Z)                          (* process_switch on a switch whose untimed handlers are pids *)
+| AClear.                                          (* queue.clear() on the oldest waiting QueuedEvent *)
 
 Record prog := mkP { p_acts : list action; p_ret : ret }.
 Definition script := list (Z * list prog).
@@ -88,9 +106,14 @@ Record posted := mkQ {
 
 Inductive obs :=
 | Ctx (pid : Z)                              (* a context (boot code, delay callback, switch handler) runs *)
+| Sub (pid : Z)                              (* a callback run inline by run_now / process_switch inside a program *)
 | Invoke (key pid e : Z) (k : kw)            (* handler registration [key] called for event e *)
 | Callback (postid pid : Z) (k : kw)         (* completion callback of post number postid *)
 | Quiet (nev ncb : Z).                       (* lengths of event_queue / callback_queue after a turn *)
+
+(* a task created by _process_queue_event; t_todo = None: _run_handlers_sequential has not started (the snapshot is
+   taken when it starts); t_wait: suspended in 'await queue.event.wait()' *)
+Record qtask := mkT { t_id : Z; t_ev : Z; t_cb : option Z; t_kw : kw; t_todo : option (list handler); t_wait : bool }.
 
 Record state := mkS {
   reg : list (Z * list handler);             (* registered_handlers *)
@@ -102,35 +125,45 @@ Record state := mkS {
   cnt : list (Z * nat);                      (* invocation counters of the script procedures *)
   out : list obs;
   oof : bool;                                (* ran out of fuel *)
+  dly : list (Z * Z);                        (* DelayManager.delays: name -> callback procedure *)
+  tasks : list qtask;                        (* tasks of _process_queue_event that have not finished *)
   disp : list Z;                             (* ghost: ids of dispatched posts, in order *)
   enq : list Z;                              (* ghost: ids of enqueued posts *)
   pushed : list Z                            (* ghost: ids of posts whose callback was queued *)
 }.
 
-Definition init : state := mkS [] [] 0 [] [] 0 [] [] false [] [] [].
+Definition init : state := mkS [] [] 0 [] [] 0 [] [] false [] [] [] [] [].
 
 Definition set_reg r k n (s : state) :=
-  mkS r k n (evq s) (cbq s) (npost s) (cnt s) (out s) (oof s) (disp s) (enq s) (pushed s).
+  mkS r k n (evq s) (cbq s) (npost s) (cnt s) (out s) (oof s) (dly s) (tasks s) (disp s) (enq s) (pushed s).
 Definition set_evq q (s : state) :=
-  mkS (reg s) (keys s) (nseq s) q (cbq s) (npost s) (cnt s) (out s) (oof s) (disp s) (enq s) (pushed s).
+  mkS (reg s) (keys s) (nseq s) q (cbq s) (npost s) (cnt s) (out s) (oof s) (dly s) (tasks s) (disp s) (enq s) (pushed s).
 Definition set_cbq q (s : state) :=
-  mkS (reg s) (keys s) (nseq s) (evq s) q (npost s) (cnt s) (out s) (oof s) (disp s) (enq s) (pushed s).
+  mkS (reg s) (keys s) (nseq s) (evq s) q (npost s) (cnt s) (out s) (oof s) (dly s) (tasks s) (disp s) (enq s) (pushed s).
 Definition set_cnt c (s : state) :=
-  mkS (reg s) (keys s) (nseq s) (evq s) (cbq s) (npost s) c (out s) (oof s) (disp s) (enq s) (pushed s).
+  mkS (reg s) (keys s) (nseq s) (evq s) (cbq s) (npost s) c (out s) (oof s) (dly s) (tasks s) (disp s) (enq s) (pushed s).
 Definition emit o (s : state) :=
-  mkS (reg s) (keys s) (nseq s) (evq s) (cbq s) (npost s) (cnt s) (out s ++ [o]) (oof s) (disp s) (enq s) (pushed s).
+  mkS (reg s) (keys s) (nseq s) (evq s) (cbq s) (npost s) (cnt s) (out s ++ [o]) (oof s) (dly s) (tasks s) (disp s) (enq s) (pushed s).
 Definition set_oof (s : state) :=
-  mkS (reg s) (keys s) (nseq s) (evq s) (cbq s) (npost s) (cnt s) (out s) true (disp s) (enq s) (pushed s).
+  mkS (reg s) (keys s) (nseq s) (evq s) (cbq s) (npost s) (cnt s) (out s) true (dly s) (tasks s) (disp s) (enq s) (pushed s).
 Definition mark_disp i (s : state) :=
-  mkS (reg s) (keys s) (nseq s) (evq s) (cbq s) (npost s) (cnt s) (out s) (oof s) (disp s ++ [i]) (enq s) (pushed s).
+  mkS (reg s) (keys s) (nseq s) (evq s) (cbq s) (npost s) (cnt s) (out s) (oof s) (dly s) (tasks s) (disp s ++ [i]) (enq s) (pushed s).
 Definition push_cb i pid k (s : state) :=
-  mkS (reg s) (keys s) (nseq s) (evq s) ((i, pid, k) :: cbq s) (npost s) (cnt s) (out s) (oof s) (disp s) (enq s)
+  mkS (reg s) (keys s) (nseq s) (evq s) ((i, pid, k) :: cbq s) (npost s) (cnt s) (out s) (oof s) (dly s) (tasks s) (disp s) (enq s)
       (pushed s ++ [i]).
 Definition bump_post (s : state) :=
-  mkS (reg s) (keys s) (nseq s) (evq s) (cbq s) (npost s + 1) (cnt s) (out s) (oof s) (disp s) (enq s) (pushed s).
+  mkS (reg s) (keys s) (nseq s) (evq s) (cbq s) (npost s + 1) (cnt s) (out s) (oof s) (dly s) (tasks s) (disp s) (enq s) (pushed s).
 Definition enqueue q (s : state) :=
-  mkS (reg s) (keys s) (nseq s) (evq s ++ [q]) (cbq s) (npost s) (cnt s) (out s) (oof s) (disp s) (enq s ++ [q_id q])
+  mkS (reg s) (keys s) (nseq s) (evq s ++ [q]) (cbq s) (npost s) (cnt s) (out s) (oof s) (dly s) (tasks s) (disp s) (enq s ++ [q_id q])
       (pushed s).
+Definition set_dly d (s : state) :=
+  mkS (reg s) (keys s) (nseq s) (evq s) (cbq s) (npost s) (cnt s) (out s) (oof s) d (tasks s) (disp s) (enq s) (pushed s).
+Definition set_tasks t (s : state) :=
+  mkS (reg s) (keys s) (nseq s) (evq s) (cbq s) (npost s) (cnt s) (out s) (oof s) (dly s) t (disp s) (enq s) (pushed s).
+(* ghost: the callback of post i is called directly by its task (queue events), not through callback_queue *)
+Definition mark_pushed i (s : state) :=
+  mkS (reg s) (keys s) (nseq s) (evq s) (cbq s) (npost s) (cnt s) (out s) (oof s) (dly s) (tasks s) (disp s) (enq s)
+      (pushed s ++ [i]).
 
 (* ------------------------------------------------------------------------------------------ *)
 (* the registry                                                                                 *)
@@ -162,9 +195,9 @@ Fixpoint insert_desc (x : handler) (l : list handler) : list handler :=
 Definition sort_desc (l : list handler) : list handler := fold_right insert_desc [] l.
 
 (* add_handler *)
-Definition add_handler (key e pid prio : Z) (hk : kw) (c : cond) (s : state) : state :=
+Definition add_handler (key e pid prio : Z) (hk : kw) (c : cond) (bf : Z) (s : state) : state :=
   let l := match reg_get e (reg s) with Some l => l | None => [] end in
-  let h := mkH key pid prio (kw_norm hk) c (nseq s) in
+  let h := mkH key pid prio (kw_norm hk) c bf (nseq s) in
   set_reg (reg_put e (sort_desc (l ++ [h])) (reg s)) ((key, e) :: keys s) (nseq s + 1) s.
 
 (* remove_handler_by_key (+ _remove_event_if_empty) *)
@@ -192,6 +225,19 @@ Fixpoint reg_filter (f : handler -> bool) (r : list (Z * list handler)) : list (
 Definition remove_by_method (pid : Z) (s : state) : state :=
   set_reg (reg_filter (fun h => negb (h_pid h =? pid)) (reg s)) (keys s) (nseq s) s.
 
+(* remove_handler_by_event(event, method): every registration of the procedure for this event
+   (+ _remove_event_if_empty) *)
+Definition remove_by_event (e pid : Z) (s : state) : state :=
+  match reg_get e (reg s) with
+  | None => s
+  | Some l =>
+      let l' := filter (fun h => negb (h_pid h =? pid)) l in
+      set_reg (if is_nil l' then reg_del e (reg s) else reg_put e l' (reg s)) (keys s) (nseq s) s
+  end.
+
+(* remove_all_handlers_for_event: del registered_handlers[event] *)
+Definition remove_all (e : Z) (s : state) : state := set_reg (reg_del e (reg s)) (keys s) (nseq s) s.
+
 (* Python == on the values that occur in kwargs (True == 1, False == 0) and on dicts *)
 Definition val_num (v : val) : option Z :=
   match v with VZ z => Some z | VB b => Some (if b then 1 else 0) | _ => None end.
@@ -208,6 +254,7 @@ Definition val_pyeq (a b : val) : bool :=
       match a, b with
       | VNone, VNone => true
       | VMap x, VMap y => zz_eqb x y
+      | VMP x, VMP y => zz_eqb x y
       | _, _ => false
       end
   | _, _ => false
@@ -229,7 +276,7 @@ Definition replace_handler (key e pid prio : Z) (hk : kw) (s : state) : state :=
         let keep h := negb ((h_pid h =? pid) && (is_nil hk || kw_pyeq (h_kw h) (kw_norm hk))) in
         set_reg (reg_put e (filter keep l) (reg s)) (keys s) (nseq s) s
     end in
-  add_handler key e pid prio hk None s1.
+  add_handler key e pid prio hk None 0 s1.
 
 (* _post.  [fast] = the fast path of the code ("no callback and no handler registered: return");
    the code has it, so the model is always run with fast = true; fast = false is the reading of the
@@ -242,17 +289,41 @@ Definition post (fast : bool) (e : Z) (ty : ety) (cb : option Z) (k : kw) (s : s
   then s
   else enqueue (mkQ i e ty cb (kw_norm k)) s.
 
-Definition run_action (fast : bool) (a : action) (s : state) : state :=
+(* DelayManager.delays (name -> callback) and the oldest waiting QueuedEvent *)
+Definition dly_del (n : Z) (l : list (Z * Z)) : list (Z * Z) := filter (fun kv => negb (fst kv =? n)) l.
+Fixpoint clear_first (l : list qtask) : list qtask :=
+  match l with
+  | [] => []
+  | t :: r => if t_wait t then mkT (t_id t) (t_ev t) (t_cb t) (t_kw t) (t_todo t) false :: r else t :: clear_first r
+  end.
+
+(* [call pid s]: what "the callback pid is called synchronously from inside this program" does.
+   DelayManager.add / reset / remove only change the table of pending delays; run_now removes the entry and
+   calls the callback; process_switch calls the untimed handlers of the switch one after the other.  None of
+   them touches process_event_queue: whatever the callbacks post is appended to event_queue and is dispatched
+   only after the running handler (and the rest of the current dispatch) has returned. *)
+Definition run_action (fast : bool) (call : Z -> state -> state) (a : action) (s : state) : state :=
   match a with
   | APost e ty cb k => post fast e ty cb k s
-  | AAdd key e pid prio suffix rel hk c => add_handler key e pid (prio + suffix + rel) hk c s
+  | AAdd key e pid prio suffix rel hk c bf => add_handler key e pid (prio + suffix + rel) hk c bf s
   | ARemove key => remove_by_key key s
   | ARemoveMethod pid => remove_by_method pid s
   | AReplace key e pid prio hk => replace_handler key e pid prio hk s
+  | ARemoveByEvent e pid => remove_by_event e pid s
+  | ARemoveAll e => remove_all e s
+  | ADelayAdd n pid => set_dly ((n, pid) :: dly_del n (dly s)) s
+  | ADelayRemove n => set_dly (dly_del n (dly s)) s
+  | ARunNow n =>
+      match assoc n (dly s) with
+      | Some pid => call pid (set_dly (dly_del n (dly s)) s)
+      | None => s
+      end
+  | ASwitch pids => fold_left (fun s pid => call pid s) pids s
+  | AClear => set_tasks (clear_first (tasks s)) s
   end.
 
-Definition run_acts (fast : bool) (l : list action) (s : state) : state :=
-  fold_left (fun s a => run_action fast a s) l s.
+Definition run_acts (fast : bool) (call : Z -> state -> state) (l : list action) (s : state) : state :=
+  fold_left (fun s a => run_action fast call a s) l s.
 
 Fixpoint cnt_get (p : Z) (c : list (Z * nat)) : nat :=
   match c with
@@ -265,12 +336,21 @@ Fixpoint script_get (p : Z) (sc : script) : list prog :=
   | (p', l) :: t => if p =? p' then l else script_get p t
   end.
 
-(* the k-th call of procedure pid runs its k-th program *)
-Definition invoke (fast : bool) (sc : script) (pid : Z) (s : state) : state * ret :=
+(* the k-th call of procedure pid runs its k-th program.  d bounds the nesting of inline calls (a callback run by
+   run_now / process_switch that itself calls run_now / process_switch ...); exhausting it sets oof *)
+Fixpoint invoke_d (fast : bool) (sc : script) (d : nat) (pid : Z) (s : state) : state * ret :=
   let k := cnt_get pid (cnt s) in
   let s := set_cnt ((pid, S k) :: cnt s) s in
   let p := nth k (script_get pid sc) (mkP [] RNone) in
-  (run_acts fast (p_acts p) s, p_ret p).
+  let call :=
+    match d with
+    | O => fun (_ : Z) (s : state) => set_oof s
+    | S d' => fun (q : Z) (s : state) => fst (invoke_d fast sc d' q (emit (Sub q) s))
+    end in
+  (run_acts fast call (p_acts p) s, p_ret p).
+
+Definition DEPTH : nat := 16.
+Definition invoke (fast : bool) (sc : script) (pid : Z) (s : state) : state * ret := invoke_d fast sc DEPTH pid s.
 
 (* ------------------------------------------------------------------------------------------ *)
 (* _run_handlers / _process_event                                                               *)
@@ -280,20 +360,50 @@ Definition merge (kwargs hk : kw) : kw :=
   else if negb (is_nil hk) then hk
   else kwargs.
 
+Fixpoint zz_get (k : Z) (m : list (Z * Z)) : option Z :=
+  match m with
+  | [] => None
+  | (k', v) :: t => if k =? k' then Some v else zz_get k t
+  end.
+
+(* '_min_priority' in kwargs and handler.blocking_facility and
+   (kwargs['_min_priority']['all'] > handler.priority or
+    (handler.blocking_facility in kwargs['_min_priority'] and kwargs['_min_priority'][facility] > handler.priority));
+   evaluated on the POSTED (+ relayed) kwargs, not on the merged ones.  'all' is key 0, facilities are 1.. *)
+Definition blocked (kwargs : kw) (h : handler) : bool :=
+  match kw_get KEY_MINPRIO kwargs with
+  | Some (VMap m) =>
+      negb (h_bf h =? 0) &&
+      ((match zz_get 0 m with Some a => h_prio h <? a | None => false end) ||
+       (match zz_get (h_bf h) m with Some a => h_prio h <? a | None => false end))
+  | _ => false
+  end.
+
 Definition is_false (r : ret) : bool := match r with RB false => true | _ => false end.
 Definition truthy (r : ret) : bool :=
   match r with
-  | RNone => false | RB b => b | RZ z => negb (z =? 0) | RMap m => negb (is_nil m)
+  | RNone => false | RB b => b | RZ z => negb (z =? 0) | RMap m => negb (is_nil m) | RWait => false
+  | RMinPrio _ => true
   end.
 Definition val_of_ret (r : ret) : val :=
-  match r with RNone => VNone | RB b => VB b | RZ z => VZ z | RMap m => VMap m end.
+  match r with RNone => VNone | RB b => VB b | RZ z => VZ z | RMap m => VMap m | RWait => VNone | RMinPrio m => VMP m end.
 Definition kw_of_map (m : list (Z * Z)) : kw := map (fun kv => (fst kv, VZ (snd kv))) m.
+
+(* relay events: kwargs.update(result) for a dict result; every type: a result dict that has '_min_priority' sets
+   kwargs['_min_priority'] for the handlers that follow *)
+Definition after_ret (ty : ety) (r : ret) (kwargs : kw) : kw :=
+  match r with
+  | RMinPrio m => kw_set KEY_MINPRIO (VMap m) kwargs
+  | RMap m => match ty with TRelay => kw_update kwargs (kw_of_map m) | _ => kwargs end
+  | _ => kwargs
+  end.
 
 Fixpoint run_handlers (fast : bool) (sc : script) (e : Z) (ty : ety) (hs : list handler)
          (kwargs : kw) (result : ret) (s : state) : state * kw * ret :=
   match hs with
   | [] => (s, kwargs, result)
   | h :: tl =>
+      if blocked kwargs h then run_handlers fast sc e ty tl kwargs result s else
       let merged := merge kwargs (h_kw h) in
       if cond_holds (h_cond h) merged then
         let s1 := emit (Invoke (h_key h) (h_pid h) e merged) s in
@@ -301,18 +411,13 @@ Fixpoint run_handlers (fast : bool) (sc : script) (e : Z) (ty : ety) (hs : list 
         match ty with
         | TBool =>
             if is_false r then (s2, kw_set KEY_EV_RESULT (VB false) kwargs, r)
-            else run_handlers fast sc e ty tl kwargs r s2
-        | TRelay =>
-            match r with
-            | RMap m => run_handlers fast sc e ty tl (kw_update kwargs (kw_of_map m)) r s2
-            | _ => run_handlers fast sc e ty tl kwargs r s2
-            end
-        | TNone => run_handlers fast sc e ty tl kwargs r s2
+            else run_handlers fast sc e ty tl (after_ret ty r kwargs) r s2
+        | _ => run_handlers fast sc e ty tl (after_ret ty r kwargs) r s2
         end
       else run_handlers fast sc e ty tl kwargs result s
   end.
 
-Definition process (fast : bool) (sc : script) (p : posted) (s : state) : state :=
+Definition process_std (fast : bool) (sc : script) (p : posted) (s : state) : state :=
   let s0 := mark_disp (q_id p) s in
   let '(s1, kwargs, result) :=
     match reg_get (q_ev p) (reg s0) with
@@ -324,6 +429,22 @@ Definition process (fast : bool) (sc : script) (p : posted) (s : state) : state 
   | Some cb =>
       let kwargs' := if truthy result then kw_set KEY_EV_RESULT (val_of_ret result) kwargs else kwargs in
       push_cb (q_id p) cb kwargs' s1
+  end.
+
+(* _process_queue_event: no handler registered -> the callback goes to callback_queue; otherwise a task is created
+   (asyncio.create_task(_run_handlers_sequential(...))): no handler runs inside process_event_queue.
+   post_queue always has a callback (a None callback would crash in the no-handler path): domain of the model *)
+Definition process_q (p : posted) (s : state) : state :=
+  let s0 := mark_disp (q_id p) s in
+  match reg_get (q_ev p) (reg s0) with
+  | None => match q_cb p with Some cb => push_cb (q_id p) cb (q_kw p) s0 | None => s0 end
+  | Some _ => set_tasks (tasks s0 ++ [mkT (q_id p) (q_ev p) (q_cb p) (q_kw p) None false]) s0
+  end.
+
+Definition process (fast : bool) (sc : script) (p : posted) (s : state) : state :=
+  match q_ty p with
+  | TQueue => process_q p s
+  | _ => process_std fast sc p s
   end.
 
 (* ------------------------------------------------------------------------------------------ *)
@@ -374,14 +495,29 @@ Fixpoint outer (fast : bool) (sc : script) (fuel : nat) (stack : list (list post
   end.
 
 (* a context runs a procedure outside any dispatch, then the queue is drained (call_soon'd
-   process_event_queue, or the direct call in delays.py / switch_controller.py) *)
-Definition turn (fast : bool) (sc : script) (fuel : nat) (pid : Z) (s : state) : state :=
-  let s1 := fst (invoke fast sc pid (emit (Ctx pid) s)) in
-  let s2 := outer fast sc fuel [] s1 in
-  emit (Quiet (Z.of_nat (length (evq s2))) (Z.of_nat (length (cbq s2)))) s2.
+   process_event_queue, or the direct call in delays.py / switch_controller.py) before the next callback of the
+   loop runs.  [Quiet] = lengths of event_queue / callback_queue when the context starts.
+   TRun pid: scripted context; TFire n: the pending delay n expires (_process_delay_callback: the entry is dropped,
+   then the callback runs, then the queue is drained); firing a delay that is not pending gives Ctx (-1) *)
+Inductive titem := TRun (pid : Z) | TFire (name : Z).
 
-Definition run_turns (fast : bool) (sc : script) (fuel : nat) (turns : list Z) (s : state) : state :=
-  fold_left (fun s pid => turn fast sc fuel pid s) turns s.
+Definition quiet (s : state) : state := emit (Quiet (Z.of_nat (length (evq s))) (Z.of_nat (length (cbq s)))) s.
+
+Definition ctx (fast : bool) (sc : script) (fuel : nat) (pid : Z) (s : state) : state :=
+  outer fast sc fuel [] (fst (invoke fast sc pid (emit (Ctx pid) (quiet s)))).
+
+Definition turn (fast : bool) (sc : script) (fuel : nat) (t : titem) (s : state) : state :=
+  match t with
+  | TRun pid => ctx fast sc fuel pid s
+  | TFire n =>
+      match assoc n (dly s) with
+      | Some pid => ctx fast sc fuel pid (set_dly (dly_del n (dly s)) s)
+      | None => emit (Ctx (-1)) s
+      end
+  end.
+
+Definition run_turns (fast : bool) (sc : script) (fuel : nat) (turns : list titem) (s : state) : state :=
+  fold_left (fun s t => turn fast sc fuel t s) turns s.
 
 (* ------------------------------------------------------------------------------------------ *)
 (* the specification: one pending list; what an event posts goes in front of what was waiting   *)
@@ -416,20 +552,97 @@ Fixpoint drain (fast : bool) (sc : script) (fuel : nat) (s : state) : state :=
   end.
 
 (* ------------------------------------------------------------------------------------------ *)
-(* correspondence entry point                                                                   *)
+(* queue events: _run_handlers_sequential as a sequence of task steps                           *)
+
+(* the handlers from hs on, until one waits (Some rest) or the list is done (None).  The merge is always
+   dict(list(kwargs.items()) + list(handler.kwargs.items())): handler kwargs win; the condition is evaluated on the
+   merged kwargs; there is no _min_priority test and no abort in this loop *)
+Fixpoint run_seq (fast : bool) (sc : script) (e : Z) (hs : list handler) (kwargs : kw) (s : state)
+  : state * option (list handler) :=
+  match hs with
+  | [] => (s, None)
+  | h :: tl =>
+      let merged := kw_update kwargs (h_kw h) in
+      if cond_holds (h_cond h) merged then
+        let '(s2, r) := invoke fast sc (h_pid h) (emit (Invoke (h_key h) (h_pid h) e merged) s) in
+        match r with
+        | RWait => (s2, Some tl)
+        | _ => run_seq fast sc e tl kwargs s2
+        end
+      else run_seq fast sc e tl kwargs s
+  end.
+
+(* callback with the posted kwargs called by the task itself, with the posted kwargs *)
+Definition finish_task (fast : bool) (sc : script) (tk : qtask) (s : state) : state :=
+  match t_cb tk with
+  | Some cb => fst (invoke fast sc cb (emit (Callback (t_id tk) cb (t_kw tk)) (mark_pushed (t_id tk) s)))
+  | None => s
+  end.
+
+(* one step of the task: from its start (snapshot of the handler list NOW; no list -> only the callback) or from the
+   handler after the one that waited, to the next wait or to the end *)
+Definition task_step (fast : bool) (sc : script) (tk : qtask) (s : state) : state * option qtask :=
+  let hs := match t_todo tk with
+            | Some l => l
+            | None => match reg_get (t_ev tk) (reg s) with Some l => l | None => [] end
+            end in
+  let '(s1, rest) := run_seq fast sc (t_ev tk) hs (t_kw tk) s in
+  match rest with
+  | None => (finish_task fast sc tk s1, None)
+  | Some tl => (s1, Some (mkT (t_id tk) (t_ev tk) (t_cb tk) (t_kw tk) (Some tl) true))
+  end.
+
+Fixpoint pick (l : list qtask) : option (qtask * list qtask) :=
+  match l with
+  | [] => None
+  | t :: r =>
+      if t_wait t then match pick r with Some (x, r') => Some (x, t :: r') | None => None end
+      else Some (t, r)
+  end.
+
+(* the loop iterations after a context: a task that is not suspended runs one step; the process_event_queue that the
+   first post of the step scheduled with call_soon then dispatches what the step posted.  (Exact for one runnable task at
+   a time - the domain of the queue suite; with several runnable tasks asyncio interleaves steps and drains FIFO.) *)
+Fixpoint tasks_loop (fast : bool) (sc : script) (fuel : nat) (n : nat) (s : state) : state :=
+  match n with
+  | O => set_oof s
+  | S n' =>
+      match pick (tasks s) with
+      | None => s
+      | Some (tk, rest) =>
+          let '(s1, r) := task_step fast sc tk (set_tasks rest s) in
+          let s2 := match r with Some tk' => set_tasks (tk' :: tasks s1) s1 | None => s1 end in
+          tasks_loop fast sc fuel n' (outer fast sc fuel [] s2)
+      end
+  end.
+
+Definition qturn (fast : bool) (sc : script) (fuel : nat) (t : titem) (s : state) : state :=
+  tasks_loop fast sc fuel fuel (turn fast sc fuel t s).
+Definition qrun_turns (fast : bool) (sc : script) (fuel : nat) (turns : list titem) (s : state) : state :=
+  fold_left (fun s t => qturn fast sc fuel t s) turns s.
+
+(* ------------------------------------------------------------------------------------------ *)
+(* correspondence entry points                                                                  *)
 
 Definition FUEL : nat := 4000.
 
-(* input: script, turns, events whose final handler order is reported.
-   output: completed?, observations, final handler keys per reported event *)
-Definition c01_in := (script * list Z * list Z)%type.
-Definition c01_out := (bool * list obs * list (list Z))%type.
+(* input: script, turns (the contexts in the order in which the loop ran them), events whose final handler order is
+   reported.  output: completed?, observations, final handler keys per reported event, names of the pending delays
+   (most recently added first) *)
+Definition c01_in := (script * list titem * list Z)%type.
+Definition c01_out := (bool * list obs * list (list Z) * list Z)%type.
+
+Definition report (evs : list Z) (s : state) : c01_out :=
+  (negb (oof s), out (quiet s),
+   map (fun e => match reg_get e (reg s) with Some l => map h_key l | None => [] end) evs,
+   map fst (dly s)).
 
 Definition c01_run (i : c01_in) : c01_out :=
-  let '(sc, turns, evs) := i in
-  let s := run_turns true sc FUEL turns init in
-  (negb (oof s), out s,
-   map (fun e => match reg_get e (reg s) with Some l => map h_key l | None => [] end) evs).
+  let '(sc, turns, evs) := i in report evs (run_turns true sc FUEL turns init).
+
+(* the queue suite: after every context the tasks of queue events run *)
+Definition c01q_run (i : c01_in) : c01_out :=
+  let '(sc, turns, evs) := i in report evs (qrun_turns true sc FUEL turns init).
 
 Definition val_eqb (a b : val) : bool :=
   match a, b with
@@ -437,6 +650,7 @@ Definition val_eqb (a b : val) : bool :=
   | VB x, VB y => Bool.eqb x y
   | VNone, VNone => true
   | VMap x, VMap y => zz_eqb x y
+  | VMP x, VMP y => zz_eqb x y
   | _, _ => false
   end.
 Fixpoint kw_eqb (a b : kw) : bool :=
@@ -448,12 +662,13 @@ Fixpoint kw_eqb (a b : kw) : bool :=
 Definition obs_eqb (a b : obs) : bool :=
   match a, b with
   | Ctx p, Ctx p' => p =? p'
+  | Sub p, Sub p' => p =? p'
   | Invoke k p e m, Invoke k' p' e' m' => (k =? k') && (p =? p') && (e =? e') && kw_eqb m m'
   | Callback i p m, Callback i' p' m' => (i =? i') && (p =? p') && kw_eqb m m'
   | Quiet a b, Quiet a' b' => (a =? a') && (b =? b')
   | _, _ => false
   end.
 Definition c01_out_eqb (a b : c01_out) : bool :=
-  let '(c, o, r) := a in
-  let '(c', o', r') := b in
-  Bool.eqb c c' && list_eqb obs_eqb o o' && zss_eqb r r'.
+  let '(c, o, r, d) := a in
+  let '(c', o', r', d') := b in
+  Bool.eqb c c' && list_eqb obs_eqb o o' && zss_eqb r r' && zs_eqb d d'.
